@@ -55,3 +55,30 @@ def exc_name(fn, *a, **k):
         return True, fn(*a, **k)
     except Exception as e:   # noqa
         return False, type(e).__name__
+
+
+def warm(o, calls):
+    """Execute a generated warm-up history on an object (exceptions ignored: e.g. a window longer than the sequence).
+    Every property is stated for 'the object', not for a fresh object, so its check may be preceded by any other API calls."""
+    for c in calls or ():
+        name, args = c[0], list(c[1]) if len(c) > 1 and c[1] is not None else []
+        if name == "get_kappa_X":
+            args = [list(a) if a is not None else None for a in args]
+        elif name == "get_reduced_alphabet_sequence" and len(args) > 1:
+            args = [args[0], dict(args[1])]
+        elif name == "get_linear_complexity" and len(args) > 2 and isinstance(args[2], dict):
+            args = list(args[:2]) + [dict(args[2])] + list(args[3:])
+        elif name == "get_linear_sequence_composition" and len(args) > 1:
+            args = [args[0], [list(g) for g in args[1]]]
+        elif name == "set_HTMLColorResiduePalette":
+            args = [dict(args[0])]
+        try:
+            getattr(o, name)(*args)
+        except Exception:   # noqa
+            pass
+    return o
+
+
+def spw(seq, case):
+    """SequenceParameters(seq) after the case's warm-up history (if any)."""
+    return warm(sp(seq), case.get("warm") if isinstance(case, dict) else None)
